@@ -1,6 +1,7 @@
 package main
 
 import (
+	"sort"
 	"fmt"
 	"go/token"
 	"go/types"
@@ -334,7 +335,11 @@ func ruleFillAccounting(w *World, r *Report, pfx string) {
 		return
 	}
 	n := 0
-	for _, l := range naturalLoops(fn) {
+	var fillLoops []*loopInfo
+	for _, f := range sortedFns(w.unit(fn)) {
+		fillLoops = append(fillLoops, naturalLoops(f)...)
+	}
+	for _, l := range fillLoops {
 		// loops that append to a byte slice
 		var app *ssa.Call
 		for b := range l.Blocks {
@@ -380,10 +385,17 @@ func ruleFillAccounting(w *World, r *Report, pfx string) {
 		}
 		r.Check(bad == "", rule, fmt.Sprintf("fill loop #%d", n), w.instrPos(app), "bytes of component k appended, counter advanced by width of component k", bad)
 	}
-	r.Floor(rule, 4, "filler, refiller, padding, ellipsis loops")
+	r.Floor(rule, 2, "the ellipsis loop and the component loop(s): filler, refiller, padding")
 }
 
 func sameComponent(a, b ssa.Value) bool {
+	if a == b {
+		// the same component value (e.g. the receiver of a helper method on the component type)
+		switch a.(type) {
+		case *ssa.Parameter, *ssa.Alloc:
+			return true
+		}
+	}
 	ia, ok1 := a.(*ssa.IndexAddr)
 	ib, ok2 := b.(*ssa.IndexAddr)
 	if !ok1 || !ok2 {
@@ -822,21 +834,25 @@ func ruleCellsBounded(w *World, r *Report, pfx string) {
 		r.Unresolved("anchor", "bFiller.Fill", "not found")
 		return
 	}
-	// counter family: values appearing as V in a loop test SUB(L, V) >= a, closed backwards over phis and ADDs
+	// counter family: values appearing as V in a loop test SUB(L, V) >= a, closed backwards over phis,
+	// ADDs and the counter a private helper takes and hands back (`dst, fillCount = c.repeat(dst, limit, fillCount)`)
+	unit := w.unit(fn)
 	family := map[ssa.Value]bool{}
 	var work []ssa.Value
-	for _, b := range fn.Blocks {
-		ifi, ok := b.Instrs[len(b.Instrs)-1].(*ssa.If)
-		if !ok {
-			continue
-		}
-		bin, ok := ifi.Cond.(*ssa.BinOp)
-		if !ok {
-			continue
-		}
-		if sub, ok := bin.X.(*ssa.BinOp); ok && sub.Op == token.SUB && (bin.Op == token.GEQ || bin.Op == token.GTR) {
-			if _, isPhi := sub.Y.(*ssa.Phi); isPhi {
-				work = append(work, sub.Y)
+	for _, f := range sortedFns(unit) {
+		for _, b := range f.Blocks {
+			ifi, ok := b.Instrs[len(b.Instrs)-1].(*ssa.If)
+			if !ok {
+				continue
+			}
+			bin, ok := ifi.Cond.(*ssa.BinOp)
+			if !ok {
+				continue
+			}
+			if sub, ok := bin.X.(*ssa.BinOp); ok && sub.Op == token.SUB && (bin.Op == token.GEQ || bin.Op == token.GTR) {
+				if _, isPhi := sub.Y.(*ssa.Phi); isPhi {
+					work = append(work, sub.Y)
+				}
 			}
 		}
 	}
@@ -858,6 +874,31 @@ func ruleCellsBounded(w *World, r *Report, pfx string) {
 				adds = append(adds, x)
 				work = append(work, x.X, x.Y)
 			}
+		case *ssa.Extract:
+			// result #k of a helper: the helper's returned values, and (through its parameters) the caller's arguments
+			if call, ok := x.Tuple.(*ssa.Call); ok {
+				if h := call.Call.StaticCallee(); h != nil && unit[h] {
+					for _, b := range h.Blocks {
+						if ret, ok := b.Instrs[len(b.Instrs)-1].(*ssa.Return); ok && x.Index < len(ret.Results) {
+							work = append(work, ret.Results[x.Index])
+						}
+					}
+				}
+			}
+		case *ssa.Parameter:
+			h := x.Parent()
+			if h != fn && unit[h] {
+				for i, q := range h.Params {
+					if q != x {
+						continue
+					}
+					for _, site := range w.callers[h] {
+						if site.Common().StaticCallee() == h && i < len(site.Common().Args) {
+							work = append(work, site.Common().Args[i])
+						}
+					}
+				}
+			}
 		}
 	}
 	if len(adds) == 0 {
@@ -877,7 +918,7 @@ func ruleCellsBounded(w *World, r *Report, pfx string) {
 		}
 		n++
 		guarded := false
-		for _, b := range fn.Blocks {
+		for _, b := range add.Parent().Blocks {
 			ifi, ok := b.Instrs[len(b.Instrs)-1].(*ssa.If)
 			if !ok {
 				continue
@@ -917,7 +958,7 @@ func ruleCellsBounded(w *World, r *Report, pfx string) {
 		}
 		r.Check(guarded, rule, fmt.Sprintf("cell counter increment by %s", describeVal(Val{V: amt})), w.instrPos(add), "guarded by the space that is left", "the cell counter is advanced by "+describeVal(Val{V: amt})+" without a guard that this many columns are left: a component wider than the remaining width (e.g. a multi-column tip on a narrow bar) makes the body, and the row, exceed the allotted width")
 	}
-	r.Floor(rule, 4, "tip, filler, refiller, padding, ellipsis increments")
+	r.Floor(rule, 3, "tip, ellipsis and the component loop(s): filler, refiller, padding")
 }
 
 func sameAmount(w *World, a, b ssa.Value) bool {
@@ -940,4 +981,14 @@ func loopInvariantValue(v ssa.Value) bool {
 		return true
 	}
 	return false
+}
+
+
+func sortedFns(m map[*ssa.Function]bool) []*ssa.Function {
+	var out []*ssa.Function
+	for f := range m {
+		out = append(out, f)
+	}
+	sort.Slice(out, func(i, j int) bool { return out[i].Pos() < out[j].Pos() })
+	return out
 }
